@@ -210,7 +210,8 @@ def mk_proto(u: U, log, **over):
     f.update(over)
     real = {n: u.load(PROTO, f"ResponseHandler.{n}") for n in ("_reschedule_timeout", "_drop_timeout", "_on_read_timeout")}
     m = {n: (lambda self, *a, _f=fn: _f(self, *a)) for n, fn in real.items()}
-    p = u.obj("ResponseHandler", f, m, shared=False)
+    p = u.obj("ResponseHandler", f, m, shared=False, real=(PROTO, "ResponseHandler"),
+              init=(PROTO, "ResponseHandler.__init__", ("LOOP",), {}))
     return p, rt, armed
 
 
